@@ -29,19 +29,21 @@ Trace == ndJsonDeserialize(TraceFile)
 VARIABLES l,      \* next line
           viol,   \* discrepancies found so far (bounded list), each [c, l, run, what]
           nviol,  \* total count per component
-          fs,     \* frame stack for the step rules: Seq of [gas, pc, stk, msize, op, cost, enterGas]
+          fs,     \* frame stack for the step rules: Seq of [gas, pc, stk, msize, op, cost, enterGas, self, node]
+          calls,  \* the call tree as the callbacks imply it (C07, C08): Seq of expected nodes, in order of entry
+          open,   \* indices of the nodes whose CALL/CREATE frame is open, innermost last
           run,    \* name of the current run
           fork,   \* fork index of the current run
           cnt     \* rule counters
 
-vars == <<l, viol, nviol, fs, run, fork, cnt>>
+vars == <<l, viol, nviol, fs, calls, open, run, fork, cnt>>
 
-Comps == {"stream", "gas", "result", "tracerout", "rule"}
+Comps == {"stream", "gas", "result", "tracerout", "rule", "treeshape", "treecontent"}
 
 Init ==
-  /\ l = 1 /\ viol = <<>> /\ nviol = [c \in Comps |-> 0] /\ fs = <<>> /\ run = "" /\ fork = 0
+  /\ l = 1 /\ viol = <<>> /\ nviol = [c \in Comps |-> 0] /\ fs = <<>> /\ calls = <<>> /\ open = <<>> /\ run = "" /\ fork = 0
   /\ cnt = [lines |-> 0, runs |-> 0, steps |-> 0, gascont |-> 0, oog |-> 0, pcrule |-> 0, stackrule |-> 0, constgas |-> 0,
-            memgas |-> 0, callret |-> 0, enters |-> 0, results |-> 0, tracerouts |-> 0]
+            memgas |-> 0, callret |-> 0, enters |-> 0, results |-> 0, tracerouts |-> 0, nodes |-> 0, refused |-> 0, trees |-> 0]
 
 ---------------------------------------------------------------------------
 (* refinement: which fields belong to which component *)
@@ -92,6 +94,7 @@ DynCost(e) ==
   ELSE IF o = 10 /\ e.t1 # "" THEN 10 + (IF fork >= 3 THEN 50 ELSE 10) * (IF e.t1 = "0x0" THEN 0 ELSE HexBytes(e.t1))   \* EXP
   ELSE -1
 
+SortedSeq(S) == LET RECURSIVE f(_) f(T) == IF T = {} THEN <<>> ELSE LET x == CHOOSE y \in T : \A z \in T : y <= z IN <<x>> \o f(T \ {x}) IN f(S)
 Push(s, x) == Append(s, x)
 Pop(s) == SubSeq(s, 1, Len(s) - 1)
 TopF == fs[Len(fs)]
@@ -132,13 +135,21 @@ Line ==
   /\ LET a == Trace[l].a
          r == Trace[l].r
      IN CASE a.k = "reset" ->
-               /\ run' = a.name /\ fork' = ForkIdx(a.kind) /\ fs' = <<>>
+               /\ run' = a.name /\ fork' = ForkIdx(a.kind) /\ fs' = <<>> /\ calls' = <<>> /\ open' = <<>>
                /\ cnt' = [cnt EXCEPT !.lines = @ + 1, !.runs = @ + 1]
                /\ UNCHANGED <<viol, nviol>>
           [] a.k = "enter" ->
                LET bad == IF Len(fs) > 0 /\ TopF.pend >= 0 /\ a.gas >= 0 /\ a.gas > TopF.pend + TopF.cost + 2300
                           THEN {"rule"} ELSE {}     \* a callee cannot be given more than the caller had (plus the stipend)
-               IN /\ fs' = Push(fs, [gas |-> a.gas, pc |-> 0, stk |-> 0, msize |-> 0, op |-> -1, cost |-> 0, pend |-> -1, enterGas |-> a.gas])
+                   \* CALL / CREATE / CREATE2 frames have a call-tree node, filed under the innermost open such frame
+                   hasNode == a.kind \in {"CALL", "CREATE", "CREATE2"}
+                   self == IF a.kind \in {"CALLCODE", "DELEGATECALL"} THEN a.from ELSE a.to
+                   nd == [from |-> a.from, to |-> (IF a.kind = "CALL" THEN a.to ELSE ""), inh |-> a.inh, inlen |-> a.inlen, val |-> a.val, gasx |-> a.gasx,
+                          parent |-> (IF open = <<>> THEN 0 ELSE open[Len(open)]), outh |-> "", outlen |-> 0, err |-> "", leftx |-> "?", refused |-> FALSE, closed |-> FALSE]
+               IN /\ fs' = Push(fs, [gas |-> a.gas, pc |-> 0, stk |-> 0, msize |-> 0, op |-> -1, cost |-> 0, pend |-> -1, enterGas |-> a.gas,
+                                      self |-> self, node |-> (IF hasNode THEN Len(calls) + 1 ELSE 0)])
+                  /\ calls' = IF hasNode THEN Append(calls, nd) ELSE calls
+                  /\ open' = IF hasNode THEN Append(open, Len(calls) + 1) ELSE open
                   /\ AddViol(LineDiffs(a, r) \cup bad, a, r)
                   /\ cnt' = [cnt EXCEPT !.lines = @ + 1, !.enters = @ + 1]
                   /\ UNCHANGED <<run, fork>>
@@ -154,7 +165,13 @@ Line ==
                                    back == IF p.pend < 0 \/ left < 0 THEN -1
                                            ELSE IF p.op \in {240, 245} THEN p.pend - child.enterGas + left ELSE p.pend + left
                                IN [popped EXCEPT ![Len(popped)].gas = back, ![Len(popped)].pend = -1]
+                   nodeIdx == IF fs = <<>> THEN 0 ELSE TopF.node
                IN /\ fs' = par
+                  \* the node of a CALL/CREATE frame gets the outcome handed back to the issuer
+                  /\ calls' = IF nodeIdx = 0 THEN calls
+                              ELSE [calls EXCEPT ![nodeIdx].outh = a.outh, ![nodeIdx].outlen = a.outlen, ![nodeIdx].err = a.err,
+                                                 ![nodeIdx].leftx = (IF left >= 0 THEN ToString(left) ELSE "?"), ![nodeIdx].closed = TRUE]
+                  /\ open' = IF nodeIdx = 0 \/ open = <<>> THEN open ELSE Pop(open)
                   /\ AddViol(LineDiffs(a, r) \cup bad, a, r)
                   /\ cnt' = [cnt EXCEPT !.lines = @ + 1, !.callret = @ + (IF left >= 0 THEN 1 ELSE 0)]
                   /\ UNCHANGED <<run, fork>>
@@ -163,7 +180,15 @@ Line ==
                    f2 == IF fs = <<>> THEN fs
                          ELSE IF a.k = "fault" \/ a.err # "" THEN [fs EXCEPT ![Len(fs)].gas = -1, ![Len(fs)].pc = -1, ![Len(fs)].stk = -1]
                          ELSE [fs EXCEPT ![Len(fs)] = AfterStep(TopF, a)]
+                   \* a CALL / CREATE / CREATE2 instruction that neither faults nor enters a frame was refused up front (depth, balance,
+                   \* nonce, collision): it still is a call attempt and has a node, closed at once, under the innermost open frame
+                   refusedAttempt == /\ a.k = "step" /\ a.err = "" /\ a.op \in {240, 241, 245} /\ fs # <<>>
+                                     /\ l < Len(Trace) /\ Trace[l + 1].a.k = "step" /\ Trace[l + 1].a.d = a.d
+                   rn == [from |-> (IF fs = <<>> THEN "" ELSE TopF.self), to |-> "?", inh |-> "?", inlen |-> -1, val |-> "?", gasx |-> "?",
+                          parent |-> (IF open = <<>> THEN 0 ELSE open[Len(open)]), outh |-> "", outlen |-> 0, err |-> "refused", leftx |-> "?", refused |-> TRUE, closed |-> TRUE]
                IN /\ fs' = f2
+                  /\ calls' = IF refusedAttempt THEN Append(calls, rn) ELSE calls
+                  /\ UNCHANGED open
                   /\ AddViol(LineDiffs(a, r) \cup (IF rules = {} THEN {} ELSE {"rule"}), a, [r EXCEPT !.name = IF rules = {} THEN r.name ELSE CHOOSE x \in rules : TRUE])
                   /\ cnt' = [cnt EXCEPT !.lines = @ + 1, !.steps = @ + 1,
                                         !.gascont = @ + (IF fs # <<>> /\ TopF.gas >= 0 /\ a.gas >= 0 THEN 1 ELSE 0),
@@ -171,17 +196,40 @@ Line ==
                                         !.pcrule = @ + (IF fs # <<>> /\ TopF.pc >= 0 THEN 1 ELSE 0),
                                         !.stackrule = @ + (IF fs # <<>> /\ TopF.stk >= 0 THEN 1 ELSE 0),
                                         !.constgas = @ + (IF a.op \in OpDefined /\ OpTable[a.op].gas >= 0 /\ a.err = "" THEN 1 ELSE 0),
-                                        !.memgas = @ + (IF a.err = "" /\ DynCost(a) >= 0 THEN 1 ELSE 0)]
+                                        !.memgas = @ + (IF a.err = "" /\ DynCost(a) >= 0 THEN 1 ELSE 0),
+                                        !.refused = @ + (IF refusedAttempt THEN 1 ELSE 0)]
                   /\ UNCHANGED <<run, fork>>
           [] a.k = "result" \/ r.k = "result" ->
                /\ AddViol(LineDiffs(a, r), a, r)
                /\ fs' = <<>>
                /\ cnt' = [cnt EXCEPT !.lines = @ + 1, !.results = @ + 1]
-               /\ UNCHANGED <<run, fork>>
+               /\ UNCHANGED <<run, fork, calls, open>>
+          [] a.k = "node" ->
+               \* one node of the recorded call tree (index a.d, 1-based; parent a.pc; children a.kids) against the tree the callbacks imply
+               LET i == a.d
+                   known == i >= 1 /\ i <= Len(calls)
+                   e == IF known THEN calls[i] ELSE [from |-> "", to |-> "", inh |-> "", inlen |-> 0, val |-> "", gasx |-> "", parent |-> -1,
+                                                     outh |-> "", outlen |-> 0, err |-> "", leftx |-> "", refused |-> FALSE, closed |-> FALSE]
+                   kidsExp == LET S == {j \in 1..Len(calls) : calls[j].parent = i} IN SortedSeq(S)
+                   shapeBad == ~known \/ a.pc # e.parent \/ a.kids # kidsExp \/ (a.pc >= i)
+                   contentBad == known /\ (IF e.refused
+                                           THEN a.from # e.from \/ a.err = "" \/ a.outlen # 0
+                                           ELSE \/ a.from # e.from \/ a.to # e.to \/ a.inh # e.inh \/ a.inlen # e.inlen \/ a.val # e.val \/ a.gasx # e.gasx
+                                                \/ (e.closed /\ (a.outh # e.outh \/ a.outlen # e.outlen \/ a.err # e.err \/ (e.leftx # "?" /\ a.usedx # e.leftx))))
+               IN /\ AddViol(IF a.top = 1 THEN {} ELSE (IF shapeBad THEN {"treeshape"} ELSE {}) \cup (IF contentBad THEN {"treecontent"} ELSE {}), a,
+                             [r EXCEPT !.from = e.from, !.to = e.to, !.inh = e.inh, !.outh = e.outh, !.err = e.err, !.usedx = e.leftx, !.gasx = e.gasx, !.pc = e.parent, !.name = "expected from the callbacks"])
+                  /\ cnt' = [cnt EXCEPT !.lines = @ + 1, !.nodes = @ + 1]
+                  /\ UNCHANGED <<fs, run, fork, calls, open>>
+          [] a.k = "tree" ->
+               \* the whole tree: as many nodes as call attempts, cursor at rest, nothing beyond the last index (a.top = 1: the stream was cut, no judgement)
+               LET bad == a.top = 0 /\ (a.d # Len(calls) \/ a.pc # 0 \/ a.stk # 0)
+               IN /\ AddViol(IF bad THEN {"treeshape"} ELSE {}, a, [r EXCEPT !.d = Len(calls), !.name = "expected node count, cursor nil, nothing beyond"])
+                  /\ cnt' = [cnt EXCEPT !.lines = @ + 1, !.trees = @ + 1]
+                  /\ UNCHANGED <<fs, run, fork, calls, open>>
           [] OTHER ->     \* tracer outputs, or "none" on the Artela side (the reference stream is longer)
                /\ AddViol(LineDiffs(a, r), a, r)
                /\ cnt' = [cnt EXCEPT !.lines = @ + 1, !.tracerouts = @ + (IF a.k = "tracer" THEN 1 ELSE 0)]
-               /\ UNCHANGED <<fs, run, fork>>
+               /\ UNCHANGED <<fs, run, fork, calls, open>>
   /\ l' = l + 1
 
 Next == Line
